@@ -305,6 +305,9 @@ impl G {
         if self.r.chance(10) {
             s.push(Step::Yield);
         }
+        if self.r.chance(5) {
+            s.push(Step::Coop(if self.r.chance(70) { 128 - self.r.below(6) } else { self.r.range(1, 300) }));
+        }
         if self.r.chance(self.p.p_peer) {
             if let Some(t) = self.downstream(a) {
                 let kind = match self.r.below(10) {
@@ -458,7 +461,11 @@ impl G {
             for _ in 0..nseg {
                 segs.push(2 * self.r.range(1, 4));
             }
-            let steps = if self.r.chance(25) { self.hook_steps(a) } else { vec![] };
+            let mut steps = if self.r.chance(25) { self.hook_steps(a) } else { vec![] };
+            if self.r.chance(30) {
+                // leave on_run with the cooperative budget (nearly) used up: whatever the loop awaits next is a forced yield
+                steps.push(Step::Coop(if self.r.chance(80) { 128 - self.r.below(6) } else { self.r.range(1, 300) }));
+            }
             run.push(RunStep { segs, steps, out });
             if out != Out::True {
                 break;
